@@ -29,15 +29,20 @@ TReturnErr == /\ R.event = "Return" /\ R.result = "err" /\ ~skipping
 TTampered == /\ R.event = "Tampered"
              /\ UNCHANGED <<sigvars, skipping>>
              /\ Step(R.verify # "panic" /\ ((R.parse_ok /\ R.value_changed) => R.verify = "err"))
+\* a package whose signature entries hold no valid signature (garbage, a non-signature packet, half a packet, the
+\* header-only signature under the header+payload tag), checked with the real verifier: it cannot have accepted one
+TNoSignature == /\ R.event = "NoSignature"
+                /\ UNCHANGED <<sigvars, skipping>>
+                /\ Step(R.verify = "err")
 \* a carrier the harness could not use (nothing is claimed about it here)
 TSkipped == R.event = "CarrierSkipped" /\ UNCHANGED <<sigvars, skipping>> /\ Step(TRUE)
-TOther == /\ R.event \notin {"Begin", "Consult", "Return", "Tampered", "CarrierSkipped"} \/ (skipping /\ R.event \in {"Consult", "Return"})
+TOther == /\ R.event \notin {"Begin", "Consult", "Return", "Tampered", "CarrierSkipped", "NoSignature"} \/ (skipping /\ R.event \in {"Consult", "Return"})
              \/ (R.event = "Return" /\ R.result \notin {"ok", "err"})
           /\ UNCHANGED sigvars
           /\ IF skipping /\ R.event \in {"Consult", "Return"} THEN UNCHANGED skipping /\ Step(TRUE)
              ELSE skipping' = TRUE /\ Step(FALSE)          \* panic or unknown event: abandon the episode
 
-Next == l <= N /\ (TBegin \/ TConsult \/ TReturnOk \/ TReturnErr \/ TTampered \/ TSkipped \/ TOther)
+Next == l <= N /\ (TBegin \/ TConsult \/ TReturnOk \/ TReturnErr \/ TTampered \/ TNoSignature \/ TSkipped \/ TOther)
 Spec == Init /\ [][Next]_vars
 Finished == (l = N + 1) => WriteVerdict(rej, nrej)
 =============================================================================
